@@ -534,6 +534,13 @@ def sugar_texts(tier: str) -> List[Tuple[str, str]]:
         r'<pair>.<key> = "k" and <pair>.<val> = "v"',
     ]
     T += [("esc", t) for t in esc]
+    # the same match expressions below another quantifier (printers indent nested quantifiers; a line break inside a
+    # match expression must survive that) - below a tree quantifier and below a numeric quantifier
+    for t in esc:
+        if t.startswith("forall <pair> p=") and " in start: " in t:
+            T.append(("esc", "forall <start> s in start: " + t.replace(" in start: ", " in s: ", 1)))
+            T.append(("esc", "exists int n: ((= n \"1\") and " + t + ")"))
+            T.append(("esc", "forall <start> s in start: exists <pair> q in s: " + t.replace(" in start: ", " in q: ", 1)))
     return T
 
 
@@ -559,6 +566,11 @@ def smt_operator_texts() -> List[Tuple[str, str]]:
         '(= (^ (str.to.int d) 2) 4)', '(= (str.to.int d) (- 1))', '(= (str.to.int d) -1)',
         '(ite (= v "a") (= d "1") (= d "2"))' if False else '(= v (str.++ "a" ""))',
     ]
+    # indexed regular-expression operators: every small bound combination (a bound of 0 is a special case of printers)
+    ops += ['(str.in_re v ((_ re.loop %d %d) (str.to_re "a")))' % (lo, hi) for lo in range(3) for hi in range(lo, 3)]
+    ops += ['(str.in_re v ((_ re.loop %d %d) (re.union (str.to_re "a") (str.to_re "b"))))' % (lo, hi) for lo, hi in ((0, 0), (0, 1), (1, 1))]
+    ops += ['(str.in_re v ((_ re.^ %d) (str.to_re "a")))' % n for n in range(3)]
+    ops += ['(str.in_re v ((_ re.loop %d) (str.to_re "a")))' % n for n in range(3)]
     return [("lang", "forall <var> v in start: exists <digit> d in start: %s" % o) for o in ops]
 
 
